@@ -11,6 +11,7 @@ import EsbuildModel.Impl.Determinism
 import EsbuildModel.Impl.Shake
 import EsbuildModel.Impl.TsEnum
 import EsbuildModel.Impl.Rename
+import EsbuildModel.Impl.Writes
 
 open EsbuildModel
 
@@ -29,6 +30,7 @@ def dispatch (kernel : String) (args : List String) : String :=
   | "shake" => Shake.driver args
   | "tsenum" => TsEnum.driver args
   | "rename" => Rename.driver args
+  | "writes" => Writes.driver args
   | _ => "bad-kernel"
 
 partial def loop (hin hout : IO.FS.Stream) : IO Unit := do
